@@ -24,7 +24,7 @@ PROPS["C06"] = {
          "invariants": ["EngInAdm", "LangIsAdm", "Lifted", "OrderFree", "LangOrderFree", "Emit"],
          "forms": ["and_chain", "or_chain", "map_group", "seq_group", "not1", "all_seq", "of_seq",
                    "all_map", "of_map", "klist", "kall", "kof", "klist_mix", "kall_mix", "kof_mix", "knot", "mx_not", "nest_and",
-                   "nall_seq", "nof_seq", "nall_map", "nof_map"],
+                   "nall_seq", "nof_seq", "nall_map", "nof_map", "seq_same", "or_same", "and_same", "of_same", "not_cmp"],
          "workers": q(tier, 4, 8)},
         FOLD_TLC(tier),
     ] + ([FOLD_APALACHE] if tier == "thorough" else []),
